@@ -6,7 +6,8 @@ ID = "C02"
 MODULES = ["IoraModel.Props.C02"]
 LEANCHECK = ["IoraModel.Model.LifecycleCore", "IoraModel.Model.EngineLifecycle", "IoraModel.Model.CloseFanout", "IoraModel.Model.LifecycleSites",
              "IoraModel.Lemmas.LifecycleCore", "IoraModel.Lemmas.LifecycleInv", "IoraModel.Lemmas.EngineLifecycle", "IoraModel.Lemmas.EngineSteps", "IoraModel.Lemmas.EngineStale",
-             "IoraModel.Lemmas.EngineFlags", "IoraModel.Lemmas.CloseFanout", "IoraModel.Props.C02"]
+             "IoraModel.Lemmas.EngineFlags", "IoraModel.Lemmas.CloseFanout", "IoraModel.Model.CloseDeliver", "IoraModel.Lemmas.CloseDeliver", "IoraModel.Lemmas.CloseDeliverCompose",
+             "IoraModel.Props.C02"]
 OBLIGATIONS = [
     {"id": "C02_sites_tcp", "theorem": "Iora.C02.closeSites_covered_tcp", "kind": "proved",
      "statement": "the lifecycle sites of tcp_engine.hpp (function, kind, guard hash incl. every earlier jump-terminated block, source order) equal the model's table"},
@@ -48,6 +49,21 @@ OBLIGATIONS = [
      "statement": "after a close the session's observers and user data are gone: a second close reaches the global callback only"},
     {"id": "C02_T5_order", "theorem": "Iora.C02.T5_observers_registration_order", "kind": "proved",
      "statement": "for every observe/unobserve/setSessionData/close history the observer list is strictly increasing in id (= registration order, each once) and agrees with the index"},
+    {"id": "C02_deliver_tie", "theorem": "Iora.C02.delivery_skeletons_conform", "kind": "proved",
+     "statement": "translator: step 6 of the Transport close handler and the entry of Transport::setReadMode are statement by statement what Model/CloseDeliver.lean mirrors; "
+                  "readModes.erase(sid) is unconditional (seed C02-c) and setReadMode is vacuous (returns true, no effect) for a closed tombstone before touching readModes (repair FC02a)"},
+    {"id": "C02_deliver_variant", "theorem": "Iora.C02.delivery_variant_sound", "kind": "proved",
+     "statement": "the model instance the lockstep driver runs (variant flags = the Gen facts) is the sound variant the T3 Transport theorems are about"},
+    {"id": "C02_T3_transport", "theorem": "Iora.C02.T3_no_delivery_after_close_transport", "kind": "proved",
+     "statement": "Transport level: for every sequential history of engine callbacks (accept/connect/data/close, any ids and payloads) and application calls (setReadMode to any mode, "
+                  "receiveSync of any length, on open, closed or unknown ids) in which the engine honours `nothing after its close` (T3a), no accept/connect/data callback for an id "
+                  "follows the run of its close handler - the buffered tail of a Sync/Disabled session is never flushed after the close"},
+    {"id": "C02_T3_end_to_end", "theorem": "Iora.C02.T3_no_delivery_after_close_end_to_end", "kind": "proved",
+     "statement": "engine o Transport: for every engine (TCP/UDP), config and engine history, and every sequential Transport history whose engine-originated ops are in order the "
+                  "callbacks of that engine history (any payloads, any setReadMode/receiveSync calls in between), no accept/connect/data callback follows the close handler of its id - "
+                  "the engine contract is discharged by T3a, no hypothesis about the engine is left"},
+    {"id": "C02_T3_transport_state", "theorem": "Iora.C02.T3_closed_ids_cannot_flush", "kind": "proved",
+     "statement": "state form: after every such history a closed id has no read mode and a closed tombstone (setReadMode leaves it alone), or nothing buffered at all"},
     {"id": "C02_T6", "theorem": "Iora.C02.T6_gauge", "kind": "proved",
      "statement": "sessionsCurrent = number of non-closed table entries after every history; announced open sessions are counted; 0 after the drain"},
     {"id": "C02_nostale", "theorem": "Iora.C02.no_dangling_session_access", "kind": "proved",
@@ -174,7 +190,7 @@ def gen_udp_script(rng, idx):
         elif k < 85:
             fn, code = rng.choice([("send", "EAGAIN"), ("send", "EAGAIN"), ("send", "EPIPE"), ("sendto", "EAGAIN"), ("sendto", "EAGAIN"), ("sendto", "EPIPE"),
                                    ("recv", "ECONNREFUSED"), ("recvfrom", "EIO"), ("connect", "EIO"), ("socket", "EMFILE"), ("getaddrinfo", "FAIL"),
-                                   ("getsockname", "FAIL")])
+                                   ("getsockname", "FAIL"), ("getnameinfo", "FAIL"), ("getnameinfo", "FAIL")])
             ops.append("udp inject %s %s %d" % (fn, code, rng.choice([0, 0, 1])))
         elif k < 88:
             ops.append("peer uclose %d" % rng.below(3))
@@ -258,6 +274,11 @@ FIXED_CASES += [
                                                                "tcp inject SSL_write x", "tcp send ~0:20", "tcp poll", "tcp poll", "tcp poll", "tcp end"]},
     {"cat": "tcp-stepped", "id": "tls-io-queued-write-error", "ops": ["tcp reset mwq=8 tls=1 nl=1 ntl=1", "tcp connect E1t", "tcp poll", "tcp poll", "tcp poll", "tcp poll", "tcp poll",
                                                                        "tcp inject SSL_write EAGAIN", "tcp send ~0:20", "tcp poll", "tcp inject SSL_write x", "tcp ev ~0 o", "tcp poll", "tcp poll", "tcp end"]},
+    # FC06a: key() fails (getnameinfo error). viaDo closes the id with Config/keyFail and creates nothing (close site `vKeyFail`); readFromListener drops
+    # the datagram with an error event (no session, no accept); the same peer is served normally once key() works again
+    {"cat": "udp-stepped", "id": "via-key-failure", "ops": ["udp reset", "peer udp", "peer udp", "udp inject getnameinfo FAIL", "udp via 0:P0", "udp poll", "udp via 0:P0", "udp poll",
+                                                             "udp inject getnameinfo FAIL", "peer usend 1 0 4", "udp poll", "udp poll", "peer usend 1 0 4", "udp poll", "udp poll",
+                                                             "udp inject getnameinfo FAIL 1", "peer usend 0 0 4", "peer usend 1 0 4", "udp poll", "udp poll", "udp end"]},
     # IPv6-only remote through an IPv4 listener
     {"cat": "udp-stepped", "id": "via-af-mismatch", "ops": ["udp reset", "peer udp", "udp via 0:v6", "udp poll", "udp via 0:P0", "udp poll", "udp via 0:v6", "udp poll", "udp end"]},
     # SSL_new failures, live connect-timeout and write-stall closes
@@ -323,6 +344,154 @@ def gen_fan_case(rng, idx):
     return {"cat": "fanout", "ops": ops, "id": "fan%d" % idx}
 
 
+# ------------------------------------------------------------------ Transport-level delivery around a close (lockstep + T3 monitor)
+DELIVER_OPS = ("data", "mode", "recv", "connect", "accept")
+
+
+def gen_deliver_case(rng, idx):
+    """Engine callbacks (accept / connect / data / close; the ENGINE contract `nothing after its close` is honoured by construction) interleaved with application
+    calls setReadMode / receiveSync on open, closed and unknown ids, plus observers (their callbacks mark the close when no global callback is installed).
+    Half of the histories are built around the pattern that matters: Sync or Disabled with bytes left in the buffer when the session closes, then mode switches."""
+    glob = 0 if rng.chance(1, 4) else 1
+    dcb = 0 if rng.chance(1, 10) else 1
+    maxbuf = rng.choice([6, 16, 1048576, 1048576])
+    gcthr = rng.choice([1, 2, 3, 1024, 1024])
+    ops = ["fan reset %d %d %d %d" % (glob, dcb, maxbuf, gcthr)]
+    sids = [1, 2, 3, 4, 5, 6]
+    closed = set()
+    announced = set()
+
+    def payload():
+        n = rng.choice([0, 1, 1, 2, 3, 5, 8]) if rng.chance(9, 10) else rng.range(6, 20)
+        return "".join("%02x" % rng.below(256) for _ in range(n)) or "-"
+
+    def engine_data(sid):
+        if sid not in closed:
+            ops.append("fan data %d %s" % (sid, payload()))
+
+    def close(sid):
+        ops.append("fan close %d" % sid)
+        closed.add(sid)
+
+    def tail_pattern(sid):
+        # leave bytes in the buffer at close time, then switch modes / read late
+        if sid in closed:
+            return
+        if sid not in announced:
+            ops.append("fan %s %d" % (rng.choice(["accept", "connect"]), sid))
+            announced.add(sid)
+        if not glob or rng.chance(1, 2):
+            ops.append("fan observe %d" % sid)
+        ops.append("fan mode %d s" % sid)
+        for _ in range(rng.range(1, 4)):
+            engine_data(sid)
+        if rng.chance(1, 3):
+            ops.append("fan recv %d %d" % (sid, rng.range(0, 3)))
+        if rng.chance(1, 4):
+            ops.append("fan mode %d d" % sid)
+            engine_data(sid)
+        close(sid)
+        for _ in range(rng.range(1, 5)):
+            k = rng.below(10)
+            if k < 6:
+                ops.append("fan mode %d %s" % (sid, rng.choice("asdaa")))
+            elif k < 9:
+                ops.append("fan recv %d %d" % (sid, rng.choice([0, 1, 2, 64])))
+            else:
+                close(rng.choice(sids))
+
+    def flush_pattern(sid):
+        # an OPEN session: buffer in Sync (or park in Disabled), then back to Async - the ordered flush the property allows
+        if sid in closed:
+            return
+        ops.append("fan mode %d s" % sid)
+        for _ in range(rng.range(1, 3)):
+            engine_data(sid)
+        if rng.chance(1, 3):
+            ops.append("fan recv %d %d" % (sid, rng.range(1, 3)))
+        if rng.chance(1, 3):
+            ops.append("fan mode %d d" % sid)
+            engine_data(sid)
+        ops.append("fan mode %d a" % sid)
+        engine_data(sid)
+
+    for _ in range(rng.range(3, 30)):
+        k = rng.below(100)
+        sid = rng.choice(sids)
+        if k < 9:
+            tail_pattern(sid)
+        elif k < 16:
+            flush_pattern(sid)
+        elif k < 22:
+            if sid not in closed:
+                ops.append("fan %s %d" % (rng.choice(["accept", "connect"]), sid))
+                announced.add(sid)
+        elif k < 42:
+            engine_data(sid)
+        elif k < 62:
+            ops.append("fan mode %d %s" % (rng.choice(sids + [9]), rng.choice("assdda")))
+        elif k < 76:
+            ops.append("fan recv %d %d" % (rng.choice(sids + [9]), rng.choice([0, 1, 1, 2, 3, 64])))
+        elif k < 84:
+            ops.append("fan observe %d" % sid)
+        elif k < 92:
+            ops.append("fan setdata %d %d" % (sid, rng.range(1, 50)))
+        else:
+            close(sid)
+    for sid in sids:
+        if rng.chance(2, 3):
+            close(sid)
+        if rng.chance(1, 2):
+            ops.append("fan mode %d %s" % (sid, rng.choice("asd")))
+            ops.append("fan mode %d a" % sid)
+        if rng.chance(1, 2):
+            ops.append("fan recv %d 64" % sid)
+    return {"cat": "fanout", "ops": ops, "id": "dlv%d" % idx}
+
+
+def deliver_monitor(c, impl):
+    """T3 at the Transport level, on the implementation's output alone: once a close callback (global `G<sid>` or observer `O<sid>.<n>`) has been seen for an id,
+    no data (`D<sid>:<hex>`), connect (`N<sid>`) or accept (`A<sid>`) callback for that id may follow - unless the INPUT itself breaks the engine contract
+    (an engine data/connect/accept op for an id the engine has already closed; the generator never does that)."""
+    bad = []
+    closed_cb = set()       # ids whose close callback the application has seen
+    eng_closed = set()      # ids the (scripted) engine has closed
+    for op, got in zip(c["ops"][1:], impl[1:]):
+        t = op.split()[1:]
+        if not t or t[0] == "inside" or t[0] == "getdata":
+            continue
+        excused = t[0] in ("data", "connect", "accept") and int(t[1]) in eng_closed
+        for ev in got.split(","):
+            m = re.match(r"^(?:D(\d+):[0-9a-f]*|N(\d+)|A(\d+))$", ev)
+            if m:
+                sid = int(m.group(1) or m.group(2) or m.group(3))
+                if sid in closed_cb and not excused:
+                    kind = "data" if ev[0] == "D" else "connect" if ev[0] == "N" else "accept"
+                    bad.append("T3 (Transport): `%s` invoked the %s callback for session %d (`%s`) after its close callback had run" % (op, kind, sid, ev))
+                continue
+            m = re.match(r"^(?:G(\d+)|O(\d+)\.\d+)$", ev)
+            if m:
+                closed_cb.add(int(m.group(1) or m.group(2)))
+        if t[0] == "close":
+            eng_closed.add(int(t[1]))
+        if bad:
+            break
+    return bad
+
+
+def shrink_deliver(ctx, hb, ops):
+    """ddmin on the op list (the reset line is kept): the smallest history on which the monitor still fails"""
+    head, rest = ops[0], ops[1:]
+
+    def fails(sub):
+        out = ctx.run_lines([hb], [head] + list(sub), timeout=60)[0]
+        return bool(deliver_monitor({"ops": [head] + list(sub)}, out))
+    try:
+        return [head] + list(ddmin(rest, fails))
+    except Exception:
+        return ops
+
+
 def fan_monitor(c, impl):
     """T5 on the implementation's output alone, against an independent reference (a plain Python re-statement of the property):
     global first, then the observers registered and not unregistered at snapshot time in registration order each once, then cleanup."""
@@ -363,6 +532,8 @@ def fan_monitor(c, impl):
             inside.append((t[1], t[2:]))
         elif t[0] == "getdata":
             want = ["D%d" % data.get(int(t[1]), (0, False))[0]]
+        elif t[0] in DELIVER_OPS:
+            continue        # judged by deliver_monitor (T3); T5 is about the close lines
         elif t[0] == "close":
             sid = int(t[1])
             if glob:
@@ -753,12 +924,42 @@ def run(ctx: Ctx):
         if not ctx.replay:
             r3 = rng.fork("fan")
             fan += [gen_fan_case(r3, i) for i in range(150 * scale)]
+            r4 = rng.fork("deliver")
+            fan += [gen_deliver_case(r4, i) for i in range(250 * scale)]
+        dlv_ops = {}
         if fan:
             fres = ctx.lockstep("life", hb, fan)
             for c, impl, model in fres:
                 dist["fanout"] = dist.get("fanout", 0) + 1
                 ctx.count_case("\n".join(c["ops"]), nontrivial=any(l not in ("-", "bad-op") for l in impl))
                 fails = fan_monitor(c, impl)
+                dfails = deliver_monitor(c, impl)
+                if any(op.split()[1] in DELIVER_OPS for op in c["ops"][1:] if len(op.split()) > 1):
+                    dist["fanout-delivery"] = dist.get("fanout-delivery", 0) + 1
+                    for op in c["ops"][1:]:
+                        w = op.split()
+                        if len(w) > 1 and w[1] in DELIVER_OPS + ("close",):
+                            dlv_ops[w[1]] = dlv_ops.get(w[1], 0) + 1
+                    dlv_ops["flushes (data callback from a setReadMode line)"] = dlv_ops.get("flushes (data callback from a setReadMode line)", 0) + \
+                        sum(1 for op, l in zip(c["ops"], impl) if " mode " in op and l.startswith("D"))
+                    seen_close = set()
+                    for op in c["ops"][1:]:
+                        w = op.split()
+                        if len(w) > 2 and w[1] == "close":
+                            seen_close.add(w[2])
+                        elif len(w) > 2 and w[1] in ("mode", "recv") and w[2] in seen_close:
+                            k = "%s on an id after its close" % ("setReadMode" if w[1] == "mode" else "receiveSync")
+                            dlv_ops[k] = dlv_ops.get(k, 0) + 1
+                if dfails and not fails:
+                    if not ctx.violation_budget("property", dfails[0]):
+                        ctx.violation("property", dfails[0])
+                        continue
+                    small = shrink_deliver(ctx, hb, c["ops"])
+                    obs = ctx.run_lines([hb], small, timeout=60)[0]
+                    sf = deliver_monitor({"ops": small}, obs) or dfails
+                    ctx.violation("property", sf[0], {"ops": small, "category": "fanout", "observed": obs, "failures": sf[:5], "unshrunk_ops": c["ops"],
+                                                      "unshrunk_failure": dfails[0]}, found_input=True)
+                    continue
                 if any(l.startswith(("crash:", "throw")) for l in impl):
                     fails.insert(0, "T0: the Transport crashed/threw in the close fan-out: %s" % [l for l in impl if l.startswith(("crash:", "throw"))][0])
                 mism = [(i, a, b) for i, (a, b) in enumerate(zip(impl, model)) if a != b]
@@ -767,7 +968,7 @@ def run(ctx: Ctx):
                 elif mism:
                     i, a, b = mism[0]
                     ctx.violation("correspondence", "close fan-out: model and Transport disagree on `%s`: impl=`%s` model=`%s`" % (c["ops"][i], a, b),
-                                  {"broken": {"correspondence": "fan-out lockstep (harness/c02_life.cpp `fan` vs Model/CloseFanout.lean)", "detail": "op index %d" % i},
+                                  {"broken": {"correspondence": "fan-out lockstep (harness/c02_life.cpp `fan` vs Model/CloseFanout.lean + Model/CloseDeliver.lean)", "detail": "op index %d" % i},
                                    "ops": c["ops"], "observed": impl, "expected_by_model": model}, found_input=False)
         # ---- threaded scenarios (monitors only)
         if not ctx.replay:
@@ -797,8 +998,14 @@ def run(ctx: Ctx):
                     ctx.violation("property", "T0: the engine crashed or hung under ThreadSanitizer (%s)" % classify_crash(rc, err),
                                   {"ops": ops[len(out):len(out) + 1], "category": "threaded", "stderr": err[-2000:]}, found_input=True)
     ctx.extra["input_distribution"] = dist
+    ctx.extra["delivery_op_distribution"] = dlv_ops if hb else {}
     ctx.extra["repo_tree_sha"] = ctx.repo_tree_sha(ANCHOR_FILES)
     ctx.extra["not_proved"] = [
+        "T3 at the Transport level (T3_no_delivery_after_close_transport) is about SEQUENTIAL histories: every engine callback and every setReadMode / receiveSync call runs to "
+        "completion before the next starts. A Sync->Async flush that is in progress on an application thread while the I/O thread runs the close handler (the flush has taken bytes "
+        "under the lock, or keeps draining chunks that arrived during its own callback) can still hand those bytes to the data callback after the close callback - the window C03 "
+        "models as flushTake/flushDeliver; closing it needs the close handler to wait for the flusher or the flusher to drop data, neither of which is a small repair. connectSync "
+        "suppression (pendingConnects, C04) and teardown (shuttingDown) are outside this piece of model",
         "T3c on TCP (`data only after the connect callback`) is proved for histories whose INPUTS honour Tcp.envOkHistory (the kernel offers no payload to a plain client socket "
         "before reporting its connect completion); that the engine keeps EPOLLOUT registered so that the kernel can honour it is tied by the translated updateInterest/addEpoll "
         "skeleton and checked on the real engine by the unconditional monitor `no data before announce` - not proved about epoll itself. T3a/T3b and T3c on UDP carry no hypothesis",
